@@ -653,8 +653,13 @@ def apalache(ctx, name, module, obligations, timeout=400):
     for label, args in obligations:
         t0 = time.time()
         try:
+            jtmp = os.path.join(out, "jtmp")          # SANY (inside Apalache) leaves a temp directory per run: keep it out of /tmp
+            os.makedirs(jtmp, exist_ok=True)
+            aenv = dict(os.environ)
+            aenv["JVM_ARGS"] = (aenv.get("JVM_ARGS", "") + " -Djava.io.tmpdir=" + jtmp).strip()
             pr = subprocess.run(["apalache-mc", "check"] + list(args) + ["--out-dir=" + out, os.path.join(SPEC, module + ".tla")],
-                                capture_output=True, text=True, timeout=timeout, cwd=ctx.workdir)
+                                capture_output=True, text=True, timeout=timeout, cwd=ctx.workdir, env=aenv)
+            shutil.rmtree(jtmp, ignore_errors=True)
             ok = "EXITCODE: OK" in pr.stdout and "NoError" in pr.stdout
             bad = "EXITCODE: ERROR" in pr.stdout and "violat" in pr.stdout.lower()
         except subprocess.TimeoutExpired:
